@@ -103,7 +103,7 @@ class World:
             if k == "calc":
                 return rel.with_calculated_column(build.tag(o["tag"]), build.expr(o["e"]))
             if k == "proj":
-                return rel.with_only_columns(build.tags(o["cols"]))
+                return rel.with_only_columns(build.tags(o["cols"], reverse=True))
             if k == "sel":
                 return rel.with_rows_satisfying(build.pred(o["p"]))
             if k == "dedup":
